@@ -531,7 +531,7 @@ def fam_helper_exports(ctx, k):
 
 
 # ------------------------------------------------------------------ directed inputs at the edge of the helper domains
-def fam_known(ctx, k):
+def fam_edge(ctx, k):
     import skfem
     from skfem import helpers as NH
     from skfem.element import DiscreteField
